@@ -584,3 +584,7 @@ PROPS['C02'] = dict(
     technique=T_CB + ' (assigns clauses enforced by goto-instrument --dfcc) + static facts on OpenMP pragma order',
     explanation=EXPL_COMMON,
     assumptions=['meta-argument from disjoint frames + taskwait order to schedule independence'])
+
+NOT_YET['C08'] = ('not applicable within this technique on this code: "identical inputs align without gaps" is a statement about the result of the whole recursive Hirschberg driver '
+                  '(aln_runner / aln_continue mutual recursion with symbolic meeting points did not finish symbolic execution for a 2x3 problem, DESIGN 2.2), and no per-function contract implies it; '
+                  'the component obligations that stand behind it are decided under C07 (kernels equal the recurrence, backward mirrors forward), C10/C01 (merge step) and C12 (upgma groups copies)')
